@@ -505,6 +505,14 @@ func (c *Context) onRestart(message *RestartMessage, behavior vivid.Behavior) {
 	// 	return
 	// }
 
+	// 僵尸状态不再执行任何用户逻辑（包括 OnPreRestart），也只能由 Kill 或父级终止释放：
+	// 监管者再次下达的重启指令（例如 OneForAll 策略因兄弟节点失败而重启全部子节点）对其无效
+	if c.zombie {
+		// 监管者在下达指令前已挂起了目标邮箱，僵尸需保持邮箱畅通以持续排空消息（含之后用于释放它的 Kill）
+		c.mailbox.Resume()
+		return
+	}
+
 	// 标记正在重启
 	atomic.StoreInt32(&c.state, killing) // 取代上方 CAS 注释
 	c.restarting = message
